@@ -1,8 +1,10 @@
 /-
-  Proofs.C13ExtPaths — the seed of any filter with prefix-free keys: at the path of every item
-  it holds what `_discard_operators` leaves of the item's condition (`seedOf`).
+  Proofs.C13ExtPaths — the seed of any filter: `_discard_operators` keeps the equality conditions
+  (`Spec.equalities`), `_expand_dots` puts each of them at its path — or raises when one of them
+  lies below another — and a dropped condition leaves nothing at its path unless an equality
+  condition reaches there.
 -/
-import Proofs.C13ExtClean
+import Proofs.C13ExtConflict
 import Proofs.C13ExtDiscard
 
 set_option linter.unusedVariables false
@@ -11,27 +13,155 @@ set_option linter.unusedSimpArgs false
 namespace MongoModel.Proofs.C13Ext
 open MongoModel MongoModel.Spec MongoModel.Proofs.C13Lemmas
 
-theorem seed_paths (ss ex : Fields) (h : expandDots ss = .ok ex) (hp : prefixFree ss)
-    (hnd : noDollarParts ss = true) :
-    (∀ kv ∈ ss, getPath (splitDots kv.1) (.doc ex) = some kv.2) ∧
-    (∀ kv ∈ ss, getPath (splitDots kv.1) (discardOps (.doc ex)).1 = seedOf kv.2) := by
-  refine ⟨expand_paths ss ex h hp, ?_⟩
-  intro kv hkv
-  exact discard_path _ _ _ (splitDots_ne_nil kv.1) (expand_clean ss ex h hp hnd kv hkv)
-    (expand_paths ss ex h hp kv hkv)
+theorem noDollarKeys_iff {ss : Fields} :
+    noDollarKeys ss = true ↔ ∀ kv ∈ ss, kv.1.startsWith "$" = false := by
+  simp [noDollarKeys, List.all_eq_true]
 
-theorem seed_paths_cases (ss ex : Fields) (h : expandDots ss = .ok ex) (hp : prefixFree ss)
-    (hnd : noDollarParts ss = true) :
-    (∀ k v, (k, v) ∈ ss → isScalar v = true →
-        getPath (splitDots k) (discardOps (.doc ex)).1 = some v) ∧
-    (∀ k x, (k, Val.doc [("$eq", x)]) ∈ ss →
-        getPath (splitDots k) (discardOps (.doc ex)).1 = some x) ∧
+/-- the equality conditions of a filter without top-level operator keys -/
+theorem equalities_eq_keep (ss : Fields) (hnd : noDollarKeys ss = true) : equalities ss = keep ss [] := by
+  unfold equalities
+  rw [discard_is_keep ss (noDollarKeys_iff.1 hnd)]
+
+theorem mem_of_dget {k : String} {w : Val} : ∀ {fs : Fields}, dget k fs = some w → (k, w) ∈ fs
+  | [], h => by simp [dget] at h
+  | (k', v') :: r, h => by
+    by_cases e : k' = k
+    · subst e; simp only [dget, if_true, Option.some.injEq] at h; subst h; exact List.mem_cons_self ..
+    · simp only [dget, e, if_false] at h; exact List.mem_cons_of_mem _ (mem_of_dget h)
+
+theorem dget_of_mem' {k : String} {v : Val} : ∀ {fs : Fields}, (dkeys fs).Nodup → (k, v) ∈ fs →
+    dget k fs = some v
+  | [], _, hm => by cases hm
+  | (k', v') :: r, hn, hm => by
+    simp only [dkeys, List.map_cons, List.nodup_cons] at hn
+    rcases List.mem_cons.1 hm with e | hm
+    · cases e; simp [dget]
+    · have : k' ≠ k := by
+        intro e; subst e
+        exact hn.1 (List.mem_map.2 ⟨(k', v), hm, rfl⟩)
+      simp only [dget, this, if_false]
+      exact dget_of_mem' hn.2 hm
+
+/-- which conditions survive: exactly the ones `_discard_operators` does not drop, each with what
+    is left of its value -/
+theorem mem_equalities (ss : Fields) (hnd : noDollarKeys ss = true) (hk : (dkeys ss).Nodup)
+    (k : String) (w : Val) :
+    (k, w) ∈ equalities ss ↔ ∃ v, (k, v) ∈ ss ∧ (discardOps v).2 = false ∧ w = (discardOps v).1 := by
+  rw [equalities_eq_keep ss hnd]
+  have hkn : (dkeys (keep ss [])).Nodup := keep_nodup ss [] (by simp [dkeys])
+  constructor
+  · intro hm
+    have hg := dget_of_mem' hkn hm
+    have hks : k ∈ dkeys ss := by
+      rcases keep_keys ss [] k (List.mem_map.2 ⟨(k, w), hm, rfl⟩) with h | h
+      · simp [dkeys] at h
+      · exact h
+    obtain ⟨kv, hkv, e⟩ := List.mem_map.1 hks
+    obtain ⟨k', v⟩ := kv
+    simp only at e; subst e
+    rw [dget_keep k' v ss [] hk (dget_of_mem' hk hkv)] at hg
+    cases hd : (discardOps v).2 with
+    | true => simp [hd, dget] at hg
+    | false =>
+      simp only [hd, Bool.false_eq_true, if_false, Option.some.injEq] at hg
+      exact ⟨v, hkv, hd, hg.symm⟩
+  · rintro ⟨v, hkv, hd, rfl⟩
+    apply mem_of_dget
+    rw [dget_keep k v ss [] hk (dget_of_mem' hk hkv), hd]
+    rfl
+
+/-- a path incomparable with every key reads in the expansion as it did before -/
+theorem fold_frame (q : List String) : ∀ (ss : Fields) (st st' : Fields × List String × List String),
+    ss.foldlM edStep st = .ok st' → (∀ b ∈ ss, Incomp (splitDots b.1) q) →
+    getPath q (.doc st'.1) = getPath q (.doc st.1)
+  | [], st, st', h, _ => by
+    simp only [List.foldlM_nil, pure, Except.pure] at h
+    cases h; rfl
+  | kv :: ss, st, st', h, hi => by
+    rw [List.foldlM_cons] at h
+    cases h1 : edStep st kv with
+    | error e => rw [h1] at h; cases h
+    | ok st1 =>
+      rw [h1] at h
+      simp only [bind, Except.bind] at h
+      obtain ⟨_, _, hex, _, _⟩ := edStep_ok st st1 kv h1
+      rw [fold_frame q ss st1 st' h (fun b hb => hi b (List.mem_cons_of_mem _ hb))]
+      exact expandOne_frame _ _ kv.2 _ _ _ _ q hex (hi kv (List.mem_cons_self ..))
+
+theorem expand_nothing (ss ex : Fields) (h : expandDots ss = .ok ex) (q : List String) (hq : q ≠ [])
+    (hi : ∀ b ∈ ss, Incomp (splitDots b.1) q) : getPath q (.doc ex) = none := by
+  rw [expandDots_eq] at h
+  cases hf : ss.foldlM edStep ([], [], []) with
+  | error e => rw [hf] at h; cases h
+  | ok st' =>
+    rw [hf] at h
+    cases h
+    rw [fold_frame q ss _ st' hf hi]
+    cases q with
+    | nil => exact absurd rfl hq
+    | cons a t => exact getPath_empty_doc a t
+
+/-- **the seed at every path** -/
+theorem seed_paths (ss ex : Fields) (hnd : noDollarKeys ss = true) (hk : (dkeys ss).Nodup)
+    (h : expandDots (equalities ss) = .ok ex) :
+    prefixFree (equalities ss) ∧
+    (∀ kv ∈ ss, (discardOps kv.2).2 = false →
+        getPath (splitDots kv.1) (.doc ex) = some (discardOps kv.2).1) ∧
+    (∀ kv ∈ ss, (discardOps kv.2).2 = true →
+        (∀ kv' ∈ ss, (discardOps kv'.2).2 = false →
+          ¬ splitDots kv'.1 <+: splitDots kv.1 ∧ ¬ splitDots kv.1 <+: splitDots kv'.1) →
+        getPath (splitDots kv.1) (.doc ex) = none) := by
+  refine ⟨expand_ok_prefixFree _ ex h, ?_, ?_⟩
+  · intro kv hkv hd
+    exact expand_paths _ ex h (kv.1, (discardOps kv.2).1)
+      ((mem_equalities ss hnd hk _ _).2 ⟨kv.2, hkv, hd, rfl⟩)
+  · intro kv hkv hd hfree
+    apply expand_nothing _ ex h _ (splitDots_ne_nil kv.1)
+    intro b hb
+    obtain ⟨k, w⟩ := b
+    obtain ⟨v, hv, hdv, _⟩ := (mem_equalities ss hnd hk k w).1 hb
+    exact hfree (k, v) hv hdv
+
+theorem seed_paths_cases (ss ex : Fields) (hnd : noDollarKeys ss = true) (hk : (dkeys ss).Nodup)
+    (h : expandDots (equalities ss) = .ok ex) :
+    (∀ k v, (k, v) ∈ ss → isScalar v = true → getPath (splitDots k) (.doc ex) = some v) ∧
+    (∀ k x, (k, Val.doc [("$eq", x)]) ∈ ss → getPath (splitDots k) (.doc ex) = some x) ∧
     (∀ k ops, (k, Val.doc ops) ∈ ss → isOps ops = true → dget "$eq" ops = none →
-        getPath (splitDots k) (discardOps (.doc ex)).1 = none) := by
-  have := (seed_paths ss ex h hp hnd).2
+        (∀ kv' ∈ ss, (discardOps kv'.2).2 = false →
+          ¬ splitDots kv'.1 <+: splitDots k ∧ ¬ splitDots k <+: splitDots kv'.1) →
+        getPath (splitDots k) (.doc ex) = none) := by
+  obtain ⟨_, h1, h2⟩ := seed_paths ss ex hnd hk h
   refine ⟨?_, ?_, ?_⟩
-  · intro k v hm hs; rw [this (k, v) hm]; exact seedOf_scalar v hs
-  · intro k x hm; rw [this (k, _) hm]; exact seedOf_eq x
-  · intro k ops hm ho he; rw [this (k, _) hm]; exact seedOf_ops ops ho he
+  · intro k v hm hs
+    have := h1 (k, v) hm (by simp [discardOps_scalar v hs])
+    simpa [discardOps_scalar v hs] using this
+  · intro k x hm
+    have := h1 (k, _) hm (by simp [discardOps_eq])
+    simpa [discardOps_eq] using this
+  · intro k ops hm ho he hfree
+    exact h2 (k, _) hm (by simp [discardOps_ops ops ho he]) hfree
+
+/-- the upsert seed of a filter without top-level operator keys -/
+theorem upsertSeed_eq (ss : Fields) (idv : Val) (hnd : noDollarKeys (dset "_id" idv ss) = true) :
+    upsertSeed ss idv = (expandDots (equalities (dset "_id" idv ss))).map Val.doc := by
+  unfold upsertSeed
+  rw [equalities_eq_keep _ hnd, discard_is_keep _ (noDollarKeys_iff.1 hnd)]
+
+/-- **when the seed can be built**: exactly when no equality condition lies at or below another;
+    otherwise the upsert raises the WriteError 'cannot infer query fields to set' -/
+theorem upsertSeed_conflict (ss : Fields) (idv : Val) (hnd : noDollarKeys (dset "_id" idv ss) = true) :
+    ((∃ seed, upsertSeed ss idv = .ok seed) ↔ prefixFree (equalities (dset "_id" idv ss))) ∧
+    (¬ prefixFree (equalities (dset "_id" idv ss)) → upsertSeed ss idv = .error .writeErr) := by
+  rw [upsertSeed_eq ss idv hnd]
+  constructor
+  · rw [← expand_ok_iff]
+    constructor
+    · rintro ⟨seed, h⟩
+      cases he : expandDots (equalities (dset "_id" idv ss)) with
+      | error e => rw [he] at h; cases h
+      | ok ex => exact ⟨ex, rfl⟩
+    · rintro ⟨ex, h⟩; rw [h]; exact ⟨_, rfl⟩
+  · intro hp
+    rw [expand_conflict _ hp]; rfl
 
 end MongoModel.Proofs.C13Ext
